@@ -1,13 +1,15 @@
 """C13 no client input crashes the server or goes unanswered.
 
 Two halves (the evidence states the split):
-  * PROOF: coq/Props/PropC13.v over coq/Sys/PanicSites.v (reachability of the MODELLED panic sites,
-    reply totality, id echo, error-not-silence at the session/hub routing level), tied to the code by
-    running the extracted model on the same structured messages as the implementation.
+  * PROOF: coq/Props/PropC13.v over coq/Sys/PanicSites.v (reachability of the MODELLED panic sites incl. the
+    in-topic default-access site, reply totality, id echo, error-not-silence at the session/hub routing level),
+    tied to the code by running the extracted model on the same structured messages as the implementation;
+    and over coq/Pure/Drafty.v (message content rendered into previews never panics), tied to the code by
+    tools/props/c13drafty.py (extracted model and drafty.PlainText / Preview on the same documents).
   * TESTING IN SUPPORT: the malformed-stream driver TestVerifFuzz (harness/overlay/server/
     zz_verif_c13_test.go) feeding raw bytes / boundary-valued messages / mixed sequences to the real
-    dispatchRaw in every session state under a matrix of configurations, and the drafty ext fuzz
-    driver.  Nothing is proved about unmodelled Go code; a panic found here is a monitor failure."""
+    dispatchRaw in every session state under a matrix of configurations.  Nothing is proved about Go
+    code outside the two models; a panic found here is a monitor failure."""
 import itertools
 import json
 import os
@@ -101,6 +103,9 @@ def lifecycle_groups():
                 i = "lc%d" % n
                 gs.append([
                     I(sess, {"sub": {"id": i + "a", "topic": topic}}),
+                    # invite / re-invite another user with the topic's default mode (anotherUserSub -> accessFor) and with a bad id
+                    I(sess, {"set": {"id": i + "j", "topic": topic, "sub": {"user": "@U2@" if sess != "peer" else "@U1@"}}}),
+                    I(sess, {"set": {"id": i + "k", "topic": topic, "sub": {"user": "usrJunk", "mode": mode}}}),
                     I(sess, {"set": {"id": i + "b", "topic": topic, "sub": {"mode": mode}}}),
                     I(sess, {"sub": {"id": i + "c", "topic": topic}}),
                     I(sess, {"leave": {"id": i + "d", "topic": topic}}),
@@ -521,7 +526,8 @@ def run(ctx):
     ctx.coverage.update({
         "split": {
             "proof_half": "obligations/discharged below count the theorems of coq/Props/PropC13.v (modelled panic sites, reply totality, id echo, error-not-silence at session/hub routing level); model tied to the code by the extracted-model correspondence run (model_correspondence)",
-            "testing_half": "evaluations/input_distribution below are the malformed-stream fuzz (TestVerifFuzz) and the drafty ext fuzz: TESTING IN SUPPORT, no proof about unmodelled Go code",
+            "proof_half_drafty": "theorems c13_drafty_* over coq/Pure/Drafty.v (toTree / forEach / PlainText / Preview never panic, for every decoded document); tied to the code by running the extracted model and drafty.PlainText / drafty.Preview on the same generated documents (drafty_fuzz: outcome class, plain text, preview compared; law drafty-panic on the implementation's answers)",
+            "testing_half": "evaluations/input_distribution below are the malformed-stream fuzz (TestVerifFuzz): TESTING IN SUPPORT, no proof about Go code outside the two models",
         },
         "evaluations": stats["evaluations"] + stats.get("drafty", {}).get("evaluations", 0),
         "distinct_nontrivial": len(stats["nontrivial"]),
@@ -538,13 +544,14 @@ def run(ctx):
             "c13_id_echo_statement: REFUTED (extra.obo rejected before the id is read; known finding id-echo-obo); c13_id_echo_partial proved",
             "exactness of the trigger predicate (trigger -> panic) is shown by one witness per site, not for all inputs",
             "error code >= 400 for ill-formed / non-existent topic names is not stated: the implementation answers 3xx in some paths (reply, not silence)",
-            "panic-freedom of unmodelled Go code: not provable here, fuzz only",
+            "c13_drafty_unrepaired_statement (range check before /repo 6cc931e) and c13_default_access_unrepaired_statement (getDefaultAccess before /repo f52b053): REFUTED by vm_compute witnesses; both repairs are in /repo, the full theorems hold for the code as it is",
+            "panic-freedom of Go code outside the two models (JSON decoding, in-topic handlers below the modelled sites, store mappers, auth handlers, push adapters): not provable here, fuzz only",
         ],
         "trusted_base": [
             "harness/overlay/server/zz_verif_c13_test.go (population, recover wrapper = stand-in for the recover-less read loops, quiescence detector of zz_verif_topic_test.go, stub media handler / validator), memverif adapter",
             "tools/props/c13.py monitors (python restatement of the property on the implementation's answers), c13gen.py generators",
-            "harness/ext/c13.go (drafty.PlainText / Preview under recover)",
-            "NOT proved: panic-freedom of unmodelled Go code (encoding/json, drafty, topic handlers below the modelled sites, store mappers, auth handlers): covered only by the fuzz runs above",
+            "harness/ext/c13.go (drafty.PlainText / Preview each under recover; its re-implementation of decodeAsDrafty / decodeAsStyle / decodeAsEntity and the uniseg segmentation hand the model the decoded document), harness/runner/r_c13d.ml, tools/props/c13drafty.py (comparison, TrimSpace applied to the model's text)",
+            "NOT proved: panic-freedom of Go code outside the two models (encoding/json, drafty's decoder and copyLight, topic handlers below the modelled sites, store mappers, auth handlers): covered only by the fuzz runs above",
         ],
     })
     ctx.finish()
